@@ -97,6 +97,20 @@ def build(carrier, vals):
         # another Fxp object holding the values exactly (integer-born when all values are integers)
         sg, w, fs = fxp_source_format(vals)
         pv = [_py(v) for v in vals]
+        if (w * 5 + fs * 3 + n) % 3 == 0:
+            # the same values in a wide source (content-determined): 64 bits and more, codes held as python integers —
+            # e.g. the product of two 32-bit operands on its way into a narrower register
+            W, fw = 64 + (w % 9), fs + 8 + (n % 5) * 6
+            codes = [int(v * 2 ** fw) for v in vals]
+            if all(-(1 << (W - 1)) <= c < (1 << (W - 1)) for c in codes):
+                if carrier == 'fxp':
+                    src, shape = Fxp(codes[0], True, W, fw, raw=True), ()
+                elif kind == 'arr':
+                    src, shape = Fxp(np.array(codes, dtype=object), True, W, fw, raw=True), (n,)
+                else:
+                    src, shape = Fxp(np.array(codes, dtype=object).reshape(2, n // 2), True, W, fw, raw=True), (2, n // 2)
+                assert [int(c) for c in flat(src.val)] == codes, 'wide fxp carrier not exact'
+                return src, shape
         if carrier == 'fxp':
             src, shape = Fxp(pv[0], sg, w, fs), ()
         elif kind == 'arr':
